@@ -41,6 +41,9 @@ pub enum C17Case {
     /// has accepted (read by the harness + pipe capacity); after an Err nothing of that
     /// call may count as consumed.  kind: 0 u8, 1 f32, 2 str (NoCopyFileSink).
     Blocked { kind: u8, n: u32, seed: u32, piece: u16, dev_full: bool },
+    /// Append mode while somebody else appends to the same file between work() calls: the
+    /// file must be old content ++ everything in the order it was written.
+    AppendShared { kind: u8, n: u16, seed: u32, chunk: u16, every: u8 },
 }
 
 fn mode_str(m: u8) -> &'static str {
@@ -155,7 +158,8 @@ impl Prop for C17 {
             .prop_map(|(kind, n, seed, chunk_max, stream)| C17Case::Durable { kind, n, seed, chunk_max: chunk_max.max(n / 300), stream });
         let blocked = (0u8..3, prop_oneof![1u32..3000, 20_000u32..120_000], any::<u32>(), 1u16..20_000, prop::bool::weighted(0.25))
             .prop_map(|(kind, n, seed, piece, dev_full)| C17Case::Blocked { kind, n, seed, piece, dev_full });
-        prop_oneof![8 => modes, kw => kills, 6 => durable, 1 => blocked].boxed()
+        let shared = (0u8..3, 1u16..2000, any::<u32>(), 1u16..300, 1u8..5).prop_map(|(kind, n, seed, chunk, every)| C17Case::AppendShared { kind, n, seed, chunk, every });
+        prop_oneof![8 => modes, kw => kills, 6 => durable, 1 => blocked, 1 => shared].boxed()
     }
     fn cases(&self, tier: Tier) -> u64 {
         tier.pick(4_000, 40_000)
@@ -180,6 +184,7 @@ impl Prop for C17 {
     fn run(&self, case: &C17Case, ctx: &mut Ctx) {
         match case {
             C17Case::Mode { mode, init, kind, n, seed, chunk } => run_mode(*mode, *init, *kind, *n as usize, *seed as u64, *chunk as usize, ctx),
+            C17Case::AppendShared { kind, n, seed, chunk, every } => run_append_shared(*kind, *n as usize, *seed as u64, *chunk as usize, *every as usize, ctx),
             C17Case::Blocked { kind, n, seed, piece, dev_full } => run_blocked(*kind, *n as usize, *seed as u64, *piece as usize, *dev_full, ctx),
             C17Case::Durable { kind, n, seed, chunk_max, stream } => run_durable(*kind, *n as usize, *seed as u64, *chunk_max as u64, *stream, ctx),
             C17Case::Kill { mode, init, kind, n, seed, chunk, acks, spin } => {
@@ -188,7 +193,7 @@ impl Prop for C17 {
         }
     }
     fn rule(&self) -> String {
-        "enumerated: open modes x initial file states x sink kinds x {700, 3, 0} units of new data (162 combinations), plus generated data lengths/chunkings; fault enumeration: a child process streams a seeded sequence through the sink and acknowledges the running count of consumed samples (raw write(2)) after every work() that returns; the parent SIGKILLs it after a generated number of acknowledgements plus a generated busy-wait. Oracle: constructor result and final file content equal a model of the documented modes (Create fails iff the path exists; Overwrite leaves exactly the new data; Append keeps old content and appends, creating the file if absent; structural impossibilities are Err); after a kill the file is (old content for Append ++) a byte prefix of the serialised stream, at least as long as the last acknowledged count. In-process crash-point enumeration ('durable' cases): FileSink<u8|f32|Complex|u32> on streams of 8 KiB, 64 KiB, 1 MiB and the default 4 MB, fed batches of 1..200 000 samples; after *every* work() that returns, the file is read through a second descriptor (exactly what a SIGKILL at that instant leaves behind, since the page cache survives the process) and must hold all consumed samples and be a prefix of the serialised stream. Crash points inside a call ('blocked' cases): the destination is a FIFO drained by the harness in pieces, so the sink blocks in write(2) mid-call while the harness samples how much of the stream counts as consumed: bytes consumed <= bytes read from the FIFO + pipe capacity (+ one packet for the packet sink) at every observation - an invariant of any sink that consumes after writing, so timing can hide a violation but not produce one; and /dev/full, where the write fails: nothing of that call may count as consumed (stream sink). Non-trivial: a FIFO case with more data than the pipe holds, a durable case with >= 2 work() returns, a mode case whose initial state is not 'absent', or a kill that landed after >= 1 acknowledgement and before the end; distinct = hash of the case (kill timing is not part of the hash).".into()
+        "enumerated: open modes x initial file states x sink kinds x {700, 3, 0} units of new data (162 combinations), plus generated data lengths/chunkings; fault enumeration: a child process streams a seeded sequence through the sink and acknowledges the running count of consumed samples (raw write(2)) after every work() that returns; the parent SIGKILLs it after a generated number of acknowledgements plus a generated busy-wait. Oracle: constructor result and final file content equal a model of the documented modes (Create fails iff the path exists; Overwrite leaves exactly the new data; Append keeps old content and appends, creating the file if absent; structural impossibilities are Err); after a kill the file is (old content for Append ++) a byte prefix of the serialised stream, at least as long as the last acknowledged count. In-process crash-point enumeration ('durable' cases): FileSink<u8|f32|Complex|u32> on streams of 8 KiB, 64 KiB, 1 MiB and the default 4 MB, fed batches of 1..200 000 samples; after *every* work() that returns, the file is read through a second descriptor (exactly what a SIGKILL at that instant leaves behind, since the page cache survives the process) and must hold all consumed samples and be a prefix of the serialised stream. Append with a second appender ('append-shared'): another handle appends markers to the file between work() calls; the file must be the old content followed by everything in the order it was written. Crash points inside a call ('blocked' cases): the destination is a FIFO drained by the harness in pieces, so the sink blocks in write(2) mid-call while the harness samples how much of the stream counts as consumed: bytes consumed <= bytes read from the FIFO + pipe capacity (+ one packet for the packet sink) at every observation - an invariant of any sink that consumes after writing, so timing can hide a violation but not produce one; and /dev/full, where the write fails: nothing of that call may count as consumed (stream sink). Non-trivial: a FIFO case with more data than the pipe holds, a durable case with >= 2 work() returns, a mode case whose initial state is not 'absent', or a kill that landed after >= 1 acknowledgement and before the end; distinct = hash of the case (kill timing is not part of the hash).".into()
     }
     fn assumptions(&self) -> Vec<String> {
         vec![
@@ -265,6 +270,98 @@ fn run_mode(mode: u8, init: Init, kind: u8, n: usize, seed: u64, chunk: usize, c
                 ctx.fail(
                     format!("C17/mode/{}-{init:?}-content", mode_str(mode)),
                     format!("{what}: file has {} bytes, model says {} (first difference at {:?})", got.len(), pre.len(), got.iter().zip(pre.iter()).position(|(a, b)| a != b)),
+                );
+            }
+        }
+    }
+}
+
+/// "Append keeps existing content and adds to it" - also when the end of the file moves
+/// between two work() calls because another writer appends to the same file.
+fn run_append_shared(kind: u8, n: usize, seed: u64, chunk: usize, every: usize, ctx: &mut Ctx) {
+    use std::io::Write;
+    ctx.class("append-shared");
+    ctx.nontrivial();
+    let sc = Scratch::new();
+    let path = prepare(&sc, Init::NonEmpty);
+    let mut want: Vec<u8> = OLD.to_vec();
+    let mut other = std::fs::OpenOptions::new().append(true).open(&path).expect("second appender");
+    let every = every.max(1);
+    rustradio::verif::set_stream_size(Some(8192));
+    let r = catch(|| -> Result<Vec<u8>, String> {
+        let mut want = want.clone();
+        let mut calls = 0usize;
+        let mut marker = |calls: usize, want: &mut Vec<u8>| {
+            if calls % every == 0 {
+                let m = format!("<{calls}>");
+                other.write_all(m.as_bytes()).expect("external append");
+                want.extend(m.as_bytes());
+            }
+        };
+        match kind % 3 {
+            2 => {
+                let data = sink_stream_str(n.min(400), seed);
+                let (w, rd) = rustradio::stream::new_nocopy_stream::<String>();
+                let mut sink = NoCopyFileSink::<String>::new(rd, &path, rustradio::file_sink::Mode::Append).map_err(|e| format!("ctor: {e}"))?;
+                for s in data {
+                    want.extend(s.as_bytes());
+                    want.push(b'\n');
+                    w.push(s, &[]);
+                    sink.work().map_err(|e| format!("work: {e}"))?;
+                    calls += 1;
+                    marker(calls, &mut want);
+                }
+            }
+            k => {
+                macro_rules! go {
+                    ($t:ty, $d:expr, $ser:expr) => {{
+                        let data: Vec<$t> = $d;
+                        let (w, rd) = rustradio::stream::new_stream::<$t>();
+                        let mut sink = FileSink::<$t>::new(rd, &path, rustradio::file_sink::Mode::Append).map_err(|e| format!("ctor: {e}"))?;
+                        let mut pos = 0;
+                        while pos < data.len() {
+                            let m = chunk.max(1).min(data.len() - pos).min(w.free());
+                            {
+                                let mut wb = w.write_buf().unwrap();
+                                wb.slice()[..m].copy_from_slice(&data[pos..pos + m]);
+                                wb.produce(m, &[]);
+                            }
+                            for x in &data[pos..pos + m] {
+                                want.extend($ser(x));
+                            }
+                            pos += m;
+                            sink.work().map_err(|e| format!("work: {e}"))?;
+                            calls += 1;
+                            marker(calls, &mut want);
+                        }
+                    }};
+                }
+                if k == 0 {
+                    go!(u8, sink_stream_u8(n, seed), |x: &u8| vec![*x])
+                } else {
+                    go!(f32, sink_stream_f32(n, seed), |x: &f32| x.to_le_bytes().to_vec())
+                }
+            }
+        }
+        Ok(want)
+    });
+    rustradio::verif::set_stream_size(None);
+    match r {
+        Err(pi) => ctx.fail(format!("C17/panic/{}", crate::engine::loc_file(&pi.loc)), format!("append-shared: panic at {}: {}", pi.loc, pi.msg)),
+        Ok(Err(e)) => ctx.fail("C17/append-shared/error".to_string(), format!("Append on an existing file: {e}")),
+        Ok(Ok(w)) => {
+            want = w;
+            let got = std::fs::read(&path).unwrap_or_default();
+            if got != want {
+                ctx.fail(
+                    "C17/append-shared/content".to_string(),
+                    format!(
+                        "{} sink in Append mode with a second appender on the file: {} bytes on disk, {} written in total; first difference at {:?}",
+                        kind_str(kind),
+                        got.len(),
+                        want.len(),
+                        got.iter().zip(want.iter()).position(|(a, b)| a != b)
+                    ),
                 );
             }
         }
